@@ -31,7 +31,14 @@ Inductive lenexp :=
 | EMul (a b : lenexp)
 | ESub (a b : lenexp).
 
+(* conditions of the optional trailing fields: "if c.GetParameters().WordCount == k" (in Marshal: the count the
+   accumulator holds when Marshal starts, after the AndX words; in Unmarshal: the count just decoded), and
+   "if c.F != 0" / "if c.F != [n]T{0,...}" *)
+Inductive mcond := MCWcEq (k : N) | MCNonZero (f : string) | MCArrNonZero (f : string).
+Inductive ucond := UCWcEq (k : N).
+
 Inductive mop :=
+| MIf (c : mcond) (m : mop)
 | MInt (s : stream) (f : string) (w : nat) (e : endian)
 | MBytes (s : stream) (f : string)
 | MNested (s : stream) (f : string) (t : ctype) (fmt : string)
@@ -43,6 +50,7 @@ Inductive mop :=
 | MOpaque (text : string).
 
 Inductive uop :=
+| UIf (c : ucond) (u : uop)
 | UGuard (s : stream) (e : lenexp)
 | UInt (s : stream) (f : string) (w : nat) (e : endian) (acc : lenexp)
 | UBytes (s : stream) (f : string) (e : lenexp)
@@ -232,8 +240,20 @@ Definition fbytes_of (x : option fval) : list N :=
   | _ => []
   end.
 
-Definition mop_step (st : mstate) (m : mop) : R mstate :=
+Definition mcond_holds (wc : N) (v : valuation) (c : mcond) : bool :=
+  match c with
+  | MCWcEq k => wc =? k
+  | MCNonZero f => negb (vint v f =? 0)
+  | MCArrNonZero f =>
+      match vget v f with
+      | Some (FStruct l) => existsb (fun y => match y with FInt n => negb (n =? 0) | _ => false end) l
+      | _ => false
+      end
+  end.
+
+Fixpoint mop_step (wc : N) (st : mstate) (m : mop) : R mstate :=
   match m with
+  | MIf c m' => if mcond_holds wc (ms_v st) c then mop_step wc st m' else Ok st
   | MInt s f w e => Ok (emit st s (int_bytes w e (vint (ms_v st) f)))
   | MBytes s f => Ok (emit st s (fbytes_of (vget (ms_v st) f)))
   | MNested s f t fmt =>
@@ -259,10 +279,10 @@ Definition mop_step (st : mstate) (m : mop) : R mstate :=
   | MOpaque _ => Panic
   end.
 
-Fixpoint mops_run (st : mstate) (ms : list mop) : R mstate :=
+Fixpoint mops_run (wc : N) (st : mstate) (ms : list mop) : R mstate :=
   match ms with
   | [] => Ok st
-  | m :: r => let* st' := mop_step st m in mops_run st' r
+  | m :: r => let* st' := mop_step wc st m in mops_run wc st' r
   end.
 
 (* the command's Parameters and Data accumulators survive between Marshal calls *)
@@ -289,7 +309,7 @@ Definition cmd_marshal (c : cmd_desc) (cs : cstate) (v : valuation) : R (list N 
   let p0 := if cd_andx c
             then fold_left params_add_word (andx_words default_andx) (cs_params cs)
             else cs_params cs in
-  let* st := mops_run {| ms_p := []; ms_d := []; ms_v := v |} (cd_marshal c) in
+  let* st := mops_run (p_wc p0) {| ms_p := []; ms_d := []; ms_v := v |} (cd_marshal c) in
   let v' := truncate_decl (cd_decl c) (ms_v st) in
   let p1 := params_add_stream p0 (ms_p st) in
   let* pb := params_marshal p1 in
@@ -348,8 +368,14 @@ Definition with_v (st : ustate) (v : valuation) : ustate :=
 
 Inductive ures := UCont (st : ustate) | URet (st : ustate).
 
-Definition uop_step (p d : sbuf) (st : ustate) (u : uop) : R ures :=
+(* the word count decoded from the parameter block is kept in the environment under a name no Go identifier has *)
+Definition wc_var : string := "$wc".
+Definition ucond_holds (st : ustate) (c : ucond) : bool :=
+  match c with UCWcEq k => env_get (us_env st) wc_var =? k end.
+
+Fixpoint uop_step (p d : sbuf) (st : ustate) (u : uop) : R ures :=
   match u with
+  | UIf c u' => if ucond_holds st c then uop_step p d st u' else Ok (UCont st)
   | UGuard s e =>
       let S := stream_of s p d in
       if (Z.of_N (slen S) <? Z.of_N (us_off st) + leval e st (slen S))%Z then Err else Ok (UCont st)
@@ -439,5 +465,5 @@ Definition cmd_unmarshal (c : cmd_desc) (v0 : valuation) (data : list N) : R val
   if early then Ok v0 else
   let ph := repeatN 0 (N.to_nat (append_cap (lenN p) - lenN p)) in
   let* dh := if lenN d =? 0 then Ok [] else go_from rest (2 + lenN d) in
-  let* st := uops_run (p, ph) (d, dh) {| us_off := 0; us_read := n; us_env := []; us_v := v0 |} (cd_unmarshal c) in
+  let* st := uops_run (p, ph) (d, dh) {| us_off := 0; us_read := n; us_env := [(wc_var, p_wc pp)]; us_v := v0 |} (cd_unmarshal c) in
   Ok (us_v st).
